@@ -2,6 +2,7 @@
    The full statements (a)-(e) for every expiry index are decided on the real search by enumerating
    every k through the virtual clock and replaying each run node for node on the model. *)
 From Walleye Require Import Model.Search Proofs.DrawTableProofs Proofs.SearchBasics Proofs.RootProofs Proofs.MateText Proofs.TableRestored Proofs.ClockSim Proofs.RootSim.
+From Walleye Require Import Proofs.PanicSites.
 Open Scope Z_scope.
 
 (* (a) whatever is handed back, at whichever consultation the clock expires, is a generated root move *)
@@ -83,6 +84,28 @@ Proof. intros zt osort k fuel. exact (quiesce_pres zt osort k fuel). Qed.
 Theorem C07_table_add_remove : forall t s k, dt_count (dt_remove (dt_add t s) s) k = dt_count t k.
 Proof. exact dt_count_remove_add. Qed.
 
+(* (e) "nothing panics", made precise: for every expiry index and every ordering oracle that keeps non-empty lists
+   non-empty, the only panics the search can raise are the three array accesses indexed by the ply (current line 60,
+   killer table 61, PV/killer lookup 62), and those need a ply outside the tables (MAX_DEPTH = 100 entries); the
+   capture search cannot panic at all and `moves[0]` is never taken of an empty list.  That the ply stays below 100
+   is not proved (check extensions have no bound in the rules); no witness exists, and the sweep over expiry indices
+   watches for it *)
+Theorem C07_only_the_ply_tables_can_panic : forall zt osort k,
+  (forall i l, l <> [] -> osort i l <> []) ->
+  forall fuel b t p, get_best_move zt osort k fuel b t = Panic p -> p = 60%N \/ p = 61%N \/ p = 62%N.
+Proof. intros zt osort k H fuel b t p. exact (search_panics_only_at_ply_arrays zt osort H k fuel b t p). Qed.
+
+Theorem C07_capture_search_never_panics : forall zt osort k fuel b a be s p, quiesce zt osort k fuel b a be s <> Panic p.
+Proof. intros zt osort k fuel. exact (quiesce_safe zt osort k fuel). Qed.
+
+Theorem C07_ply_sites_need_a_ply_outside_the_tables : forall s ply m l p,
+  (insert_into_cur_line s ply m = Panic p -> ~ (0 <= ply < Z.of_nat (length (cur_line s)))) /\
+  (rank_moves s ply l = Panic p -> ~ (0 <= ply < Z.of_nat (length (pv_moves s)) /\ 0 <= ply < Z.of_nat (length (killers s)))).
+Proof. intros. split; [apply cur_line_site_needs_overflow|apply rank_site_needs_overflow]. Qed.
+
+Print Assumptions C07_only_the_ply_tables_can_panic.
+Print Assumptions C07_capture_search_never_panics.
+Print Assumptions C07_ply_sites_need_a_ply_outside_the_tables.
 Print Assumptions C07_handed_back_is_root_move.
 Print Assumptions C07_expired_node_aborts.
 Print Assumptions C07_expired_quiescence_aborts.
